@@ -788,23 +788,41 @@ bool TypeAuditor::ViRecursion(Cursor iter) {
     return false;
   }
 
+  // Note: the variable holds the initial value first and the values of the step afterwards,
+  // so it is declared with the join of both types and the step has to stay within that type
+  auto variableType = env.Merge(std::get<Typification>(iterationValue.value()), std::get<Typification>(initType.value()));
+  if (!variableType.has_value()) {
+    OnError(
+      SemanticEID::typesNotEqual,
+      iter(iterationIndex).pos.start,
+      iterationValue.value(),
+      initType.value()
+    );
+    return false;
+  }
+
   { 
     const auto guard = noWarnings.CreateGuard();
     auto isStable = false;
     for (auto retries = typeDeductionDepth; retries > 0; --retries) {
       ClearLocalVariables();
-      if (!VisitChildDeclaration(iter, 0, std::get<Typification>(iterationValue.value()))) {
+      if (!VisitChildDeclaration(iter, 0, variableType.value())) {
         return false;
       }
       auto newIteration = ChildType(iter, iterationIndex);
       if (!newIteration.has_value()) {
         return false;
       }
-      if (std::get<Typification>(newIteration.value()) == std::get<Typification>(iterationValue.value())) {
+      iterationValue = newIteration;
+      auto newVariable = env.Merge(std::get<Typification>(iterationValue.value()), variableType.value());
+      if (!newVariable.has_value()) {
+        break;
+      }
+      if (newVariable.value() == variableType.value()) {
         isStable = true;
         break;
       }
-      iterationValue = newIteration;
+      variableType = newVariable;
     }
     if (!isStable) {
       // Note: the type of the step keeps changing with the type of the variable - the recursion has no type
@@ -825,18 +843,7 @@ bool TypeAuditor::ViRecursion(Cursor iter) {
   }
 
   EndScope(iter->pos.start);
-  // Note: the result is the initial value when no step is made, so its type takes part in the result type
-  auto resultType = env.Merge(std::get<Typification>(iterationValue.value()), std::get<Typification>(initType.value()));
-  if (!resultType.has_value()) {
-    OnError(
-      SemanticEID::typesNotEqual,
-      iter(iterationIndex).pos.start,
-      iterationValue.value(),
-      initType.value()
-    );
-    return false;
-  }
-  return SetCurrent(std::move(resultType.value()));
+  return SetCurrent(std::move(variableType.value()));
 }
 
 bool TypeAuditor::ViDecart(Cursor iter) {
